@@ -60,7 +60,7 @@ CHECKS['C13'] = dict(
 
 CHECKS['C08'] = dict(
    technique='Coq proof (Gaussian elimination with scaled partial pivoting on functional matrices: any returned vector solves A x = b; every matrix with a non-trivial left null vector is refused for every right-hand side; shape errors, no panic; triangular substitutions) + bit-for-bit correspondence on all container types + exact-rational oracle',
-   text='11 theorems: for the binary64 instance (Flocq) the componentwise BACKWARD error of the exported substitution routines: c08_forward_substitution_float_error / c08_back_substitution_float_error (residual of every row <= ((1+eps)^(n+1) - 1) * sum |T_ij||x_j| for finite, normal-range intermediate values), c08_okdiv_by_leb; in exact arithmetic for every n, A, b, tol>0: c08_nonsingular_accepted(_r) (a non-singular matrix is accepted for every sufficiently small tolerance and every right-hand side; with c08_singular_refused: for small tolerances a solution is returned exactly when A is non-singular), c08_solves (via the effective-system invariant of the in-place elimination that leaves stale sub-diagonal entries), c08_lists (at the extracted list boundary), c08_singular_refused (no determinants: the flag is independent of b), c08_shape (non-square / length mismatch / empty are errors, never a panic), c08_substitution(_triangular); float instance agrees bit for bit with the Rust code on exhaustive 2x2, sampled 3x3, random/row-scaled/rank-deficient systems up to 10x10 across Vec<Vec<f64>>, &Vec<Vec<i32>>, &Arr2D<f64>, &Arr2D<i32>',
+   text='12 theorems (new: c08_unique, an accepted system has no left or right null vector and the returned vector is its only solution): for the binary64 instance (Flocq) the componentwise BACKWARD error of the exported substitution routines: c08_forward_substitution_float_error / c08_back_substitution_float_error (residual of every row <= ((1+eps)^(n+1) - 1) * sum |T_ij||x_j| for finite, normal-range intermediate values), c08_okdiv_by_leb; in exact arithmetic for every n, A, b, tol>0: c08_nonsingular_accepted(_r) (a non-singular matrix is accepted for every sufficiently small tolerance and every right-hand side; with c08_singular_refused: for small tolerances a solution is returned exactly when A is non-singular), c08_solves (via the effective-system invariant of the in-place elimination that leaves stale sub-diagonal entries), c08_lists (at the extracted list boundary), c08_singular_refused (no determinants: the flag is independent of b), c08_shape (non-square / length mismatch / empty are errors, never a panic), c08_substitution(_triangular); float instance agrees bit for bit with the Rust code on exhaustive 2x2, sampled 3x3, random/row-scaled/rank-deficient systems up to 10x10 across Vec<Vec<f64>>, &Vec<Vec<i32>>, &Arr2D<f64>, &Arr2D<i32>',
    note=COMMON_NOTE + '; the backward error of the elimination itself and the floating-point version of "well-conditioned systems are never refused" are measured by the oracle; float-level theorems use FloatAxioms and list the PrimFloat/PrimInt63 primitives; Flocq', ref='DESIGN.md §5 C08')
 CHECKS['C15'] = dict(
    technique='Coq proof (normal equations of the closed-form line and of the polynomial fit via c08_solves, optimality identity SSE(c\')=SSE(c)+sum(p_c-p_c\')^2, statistics formulas, gradient-descent error recurrence) + bit-for-bit correspondence + exact oracle scaled by the moment-matrix condition',
